@@ -122,6 +122,13 @@ func Apply(dt interface{}, o Op) (ret interface{}, err error) {
 			}
 			return v, nil
 		case "del":
+			if o.N == 1 {
+				v, e := t.Delete(o.Pos) // the single-element form of the same call
+				if e != nil {
+					return nil, e
+				}
+				return []interface{}{v}, nil
+			}
 			v, e := t.DeleteMany(o.Pos, o.N)
 			if e != nil {
 				return nil, e
@@ -179,6 +186,13 @@ func Apply(dt interface{}, o Op) (ret interface{}, err error) {
 			}
 			return docVals(old), nil
 		case "del":
+			if o.N == 1 {
+				old, e := c.DeleteInArray(o.Pos) // the single-element form of the same call
+				if e != nil {
+					return nil, e
+				}
+				return docVals([]orda.Document{old}), nil
+			}
 			old, e := c.DeleteManyInArray(o.Pos, o.N)
 			if e != nil {
 				return nil, e
